@@ -172,7 +172,11 @@ theorem monoX_stepCreated (p : Pool) (t : Nat) (tk : PTask) : MonoX t p (p.stepC
     split
     · exact h0.trans (monoX_afterWorker _ t _)
     · exact h0.trans (monoX_afterWorker _ t _)
-    · exact h0.trans (monoX_suspendTask _ t _)
+    · exact (h0.trans (monoX_modTask _ t _)).trans (monoX_suspendTask _ t _)
+
+theorem monoX_workerNext (p : Pool) (t : Nat) : MonoX t p (p.workerNext t) := by
+  unfold workerNext
+  exact (((tame_logEv p _).mono.toX t).trans (monoX_modTask _ t _)).trans (monoX_suspendTask _ t _)
 
 theorem monoX_workerCancelled (p : Pool) (t : Nat) (tk : PTask) : MonoX t p (p.workerCancelled t tk) := by
   unfold workerCancelled
@@ -190,7 +194,9 @@ theorem monoX_stepInWorker (p : Pool) (t : Nat) (tk : PTask) : MonoX t p (p.step
   split
   · exact (monoX_modTask p t _).trans (monoX_workerCancelled _ t tk)
   · split
-    · exact monoX_afterWorker p t _
+    · split
+      · exact monoX_workerNext p t
+      · exact monoX_afterWorker p t _
     · exact monoX_afterWorker p t _
     · exact MonoX.refl t p
 
